@@ -60,6 +60,7 @@ class C02(PipelineProp):
                 continue
             const = None
             dest = None
+            ps = []
             for x, name, cc, strand in sorted(anchors):
                 hits = idx.locate(name, cc)
                 if len(hits) != 1:
@@ -72,17 +73,19 @@ class C02(PipelineProp):
                             f"{idx.scaffolds[dest][1]['name']} and {idx.scaffolds[sid][1]['name']}")
                 if ostrand != strand * pc["strand"]:
                     return f"base {name}:{cc} has output strand {ostrand}, expected input {strand} x piece {pc['strand']}"
+                ps.append(p)
                 c = p - pc["strand"] * x
                 if const is None:
                     const = c
                 elif c != const:
                     return (f"core of piece {pc['name']}:{pc['start']}-{pc['end']} is not collinear in "
                             f"{idx.scaffolds[dest][1]['name']} (offset {c} vs {const} at {name}:{cc})")
-            mid = const + pc["strand"] * ((a + b) // 2)
-            by_dest.setdefault((pc["dest"], dest), []).append((pc["dest_pos"], mid))
-        for (pd, od), mids in by_dest.items():
-            mids = [m for _, m in sorted(mids)]
-            if mids != sorted(mids):
+            # where the core's contig bases really are in the output (not an extrapolated mid point: a core may
+            # consist mostly of a gap that is dropped at the cut and replaced by a join gap of another length)
+            by_dest.setdefault((pc["dest"], dest), []).append((pc["dest_pos"], min(ps), max(ps)))
+        for (pd, od), spans in by_dest.items():
+            spans = sorted(spans)
+            if any(spans[i][2] >= spans[i + 1][1] for i in range(len(spans) - 1)):
                 return f"pieces of Pretext scaffold {pd + 1} sharing output scaffold {idx.scaffolds[od][1]['name']} are out of Pretext order"
         # deep cuts
         pcs = case["pieces"]
